@@ -117,9 +117,29 @@ def _attr_names(ctx_or_none, meth, expr: ast.AST, parents) -> Optional[set]:
     return None
 
 
-def _classify_use(name: ast.AST, parents, meth=None) -> str:
+ALLOWED_USES = ("keep", "iterate", "probe", "forward", "repr")
+
+
+def _classify_use(name: ast.AST, parents, meth=None, _depth: int = 0) -> str:
     """How is this load of the underlying iterator used?"""
     p = parents.get(id(name))
+    # bound to a local first (``wrapped = self.__wrapped__`` / ``kind, wrapped = self._kind, self.__wrapped__``):
+    # what counts is what is done with the local
+    local = None
+    if isinstance(p, ast.Assign) and p.value is name and len(p.targets) == 1 and isinstance(p.targets[0], ast.Name):
+        local = p.targets[0].id
+    gp = parents.get(id(p)) if p is not None else None
+    if isinstance(p, ast.Tuple) and isinstance(gp, ast.Assign) and gp.value is p and len(gp.targets) == 1 \
+            and isinstance(gp.targets[0], ast.Tuple) and len(gp.targets[0].elts) == len(p.elts):
+        t = gp.targets[0].elts[p.elts.index(name)]
+        local = t.id if isinstance(t, ast.Name) else None
+    if local is not None and meth is not None and _depth < 3:
+        stores = [x for x in ast.walk(meth.node) if isinstance(x, ast.Name) and x.id == local and isinstance(x.ctx, ast.Store)]
+        loads = [x for x in ast.walk(meth.node) if isinstance(x, ast.Name) and x.id == local and isinstance(x.ctx, ast.Load)]
+        if len(stores) == 1:
+            hows = [_classify_use(x, parents, meth, _depth + 1) for x in loads]
+            bad = [h for h in hows if h not in ALLOWED_USES]
+            return bad[0] if bad else (hows[0] if hows else "keep")
     if isinstance(p, (ast.Assign, ast.AnnAssign)) and p.value is name:
         tgts = p.targets if isinstance(p, ast.Assign) else [p.target]
         if all(isinstance(t, ast.Attribute) and t.attr == "__wrapped__" for t in tgts):
@@ -177,7 +197,7 @@ def r07_1(ctx, pkg: Package, report: bool, fail_rule: str = "R07.1") -> int:
                     continue
                 uses += 1
                 how = _classify_use(n, parents, meth)
-                ok = how in ("keep", "iterate", "probe", "forward", "repr")
+                ok = how in ALLOWED_USES
                 if report:
                     ctx.check(ok, fail_rule, meth, parents.get(id(n)) or n,
                               f"the underlying iterator is only {how}" if ok else
